@@ -17,7 +17,10 @@ RULE = ("Hypothesis generates directed graphs of 2-10 rules WITHOUT the DAG cons
         "graph of the requested key contains a cycle. Cycle => build returns the empty value, cycleDetected is "
         "called exactly once, the list starts with the requested key, its last key repeats an earlier one and "
         "each consecutive pair (x,y) is a real wait-for (y requested by x's task in this build, or recorded for "
-        "x by its last completed execution). No cycle => no report, no stall, value equals the evaluator's. "
+        "x by its last completed execution). No cycle => no report, no stall, value equals the evaluator's. A "
+        "fourth of the cases is a motif in which the cycle exists only among RECORDED dependencies and runs through "
+        "a discovered one (A requests B, B discovers A): there a well-formed report of real edges or the clean "
+        "value is accepted, never a stall, crash or stale value. "
         "Non-trivial = cyclic case whose cycle does not pass through the root or only exists through a "
         "dynamic edge, or an acyclic case with >= 4 rules executed in a history with an earlier build; "
         "distinct = sha1 of the case.")
@@ -132,8 +135,41 @@ def scan_cycle_case(draw):
             "restart_after_failure": draw(st.booleans()), "motif": "scan-cycle"}
 
 
+@st.composite
+def disc_cycle_case(draw):
+    """Motif branch: a cycle that exists only among RECORDED dependencies and runs through a DISCOVERED one --
+    A requests B, B reports A as a discovered dependency (legal: a discovered dependency never blocks the task
+    that reports it). From the second build on, scanning A waits for the scan of B, which waits for the scan of
+    A, with no task running anywhere."""
+    nl = draw(st.integers(1, 2))
+    n = draw(st.integers(2, 4))
+    keys = draw(em.key_pool(nl + n))
+    leaves, chain = keys[:nl], keys[nl:]
+    rules = [em.leaf_rule(k, draw(em._PREFIX)) for k in leaves]
+    back = draw(st.integers(0, n - 2))
+    for i, k in enumerate(chain):
+        ins = []
+        if i + 1 < n:
+            ins.append({"key": chain[i + 1], "mode": draw(st.sampled_from(["r", "r", "m"])), "w": 1, "src": -1, "mod": 1, "rem": 0})
+        for lf in draw(st.permutations(leaves))[:draw(st.integers(0, nl))]:
+            ins.insert(draw(st.integers(0, len(ins))), {"key": lf, "mode": "r", "w": draw(st.integers(1, 3)), "src": -1, "mod": 1, "rem": 0})
+        discs = []
+        if i == n - 1:
+            discs.append({"key": chain[back], "w": 1, "src": -1, "mod": 1, "rem": 0})
+        rules.append({"key": k, "leaf": False, "prefix": draw(em._PREFIX), "ver": 0, "mod": draw(em._MODS),
+                      "salt": draw(st.integers(0, 7)), "force": False, "art": False, "ins": ins, "discs": discs})
+    init = {k: draw(st.integers(0, 3)) for k in leaves}
+    ops = [draw(em.build_op([chain[draw(st.integers(0, back))]]))]
+    for _ in range(draw(st.integers(1, 3))):
+        if draw(st.booleans()):
+            ops.append({"op": "set", "key": draw(st.sampled_from(leaves)), "v": draw(st.integers(0, 5))})
+        ops.append(draw(em.build_op(chain[:back + 1])))
+    return {"db": draw(st.booleans()), "front": "cxx", "rules": rules, "init": init, "ops": ops,
+            "restart_after_failure": draw(st.booleans()), "motif": "disc-cycle"}
+
+
 def strategy(tier):
-    return st.one_of(graph_case(), graph_case(), scan_cycle_case())
+    return st.one_of(graph_case(), graph_case(), scan_cycle_case(), disc_cycle_case())
 
 
 def expand_ops(case):
@@ -198,6 +234,24 @@ def check(case, trace):
                 return "build %d: unexpected error %s" % (b["n"], s["errors"][0]), info
             if s["result"] != expect:
                 return "build %d of %s returned %s, clean value %s" % (b["n"], root, s["result"] or "-", expect), info
+        elif cyc is None and case.get("motif") == "disc-cycle" and s["cycles"]:
+            # The declared graph is acyclic, but the dependencies recorded by earlier builds are cyclic through
+            # a discovered edge. Whether a given build runs into that cycle depends on what changed (a rule that
+            # re-runs before its scan reaches the edge does not), so either the clean value or a well-formed
+            # report made of real wait-for edges is accepted -- never a stall, a crash or a stale value.
+            info["recorded_disc_cycle"] = info.get("recorded_disc_cycle", 0) + 1
+            info["nontrivial"] = True
+            if s["result"] != "":
+                return "build %d of %s reported a cycle but returned %s" % (b["n"], root, s["result"]), info
+            lst = s["cycles"][0]
+            if len(s["cycles"]) != 1 or not lst or lst[0] != root or len(lst) < 2 or lst[-1] not in lst[:-1]:
+                return "build %d of %s: malformed cycle report %s" % (b["n"], root, s["cycles"]), info
+            for x, y in zip(lst, lst[1:]):
+                requested = {k for k, _, _ in s["requests"].get(x, [])}
+                recorded = {k for k, _ in led.deps.get(x, [])}
+                if y not in requested and y not in recorded:
+                    return ("build %d: cycle list %s: %s does not wait for %s (requested this build: %s, "
+                            "recorded: %s)" % (b["n"], lst, x, y, sorted(requested), sorted(recorded))), info
         elif cyc is None:
             info["acyclic"] += 1
             if s["cycles"]:
@@ -273,6 +327,10 @@ def run_case(case, ctx, verbose=False):
         classes.append("cycle-through-scanning-rule")
     if info.get("single_only"):
         classes.append("cycle-only-through-single-use")
+    if case.get("motif") == "disc-cycle":
+        classes.append("discovered-edge-motif")
+    if info.get("recorded_disc_cycle"):
+        classes.append("cycle-only-among-recorded-dependencies")
     if info["cyclic"] and not case.get("restart_after_failure", True):
         classes.append("same-engine-after-cycle")
     return Outcome(v, nontrivial=info["nontrivial"], classes=classes)
